@@ -176,7 +176,7 @@ func init() {
 					ns := sar.Spec.ResourceAttributes.Namespace
 					al := env.allow(ns)
 					sar.Status.Allowed = al
-					env.trace = append(env.trace, fmt.Sprintf("sar:%s:%s", ns, b01(al)))
+					env.trace = append(env.trace, fmt.Sprintf("sar:%s:%s:%s", ns, b01(al), hx(sar.Spec.User)))
 					return nil
 				}
 				rec("create", obj, obj.GetNamespace())
@@ -238,8 +238,11 @@ func init() {
 			body = bytes.NewBufferString(rs.body(reqNs))
 		}
 		req := httptest.NewRequest(rs.method, target, body)
+		// the identity header is <USERID_PREFIX><user>; the review must be made for exactly <user>
+		ui.USER_PREFIX = pick(rng, []string{":", ":", "accounts.google.com:", ""})
+		userName := pick(rng, []string{"alice", "alice", "bob@example.com", "cobob@example.com", "scott", "a.c"})
 		if hdr {
-			req.Header.Set("kubeflow-userid", "alice")
+			req.Header.Set("kubeflow-userid", ui.USER_PREFIX+userName)
 		}
 		w := httptest.NewRecorder()
 		status := 0
@@ -269,7 +272,7 @@ func init() {
 		} else if status == 403 {
 			gate = "403"
 		}
-		op := fmt.Sprintf("C20 %s %s %s %s", hx(rs.path), b01(hdr), env.script, reqNs)
+		op := fmt.Sprintf("C20 %s %s %s %s %s", hx(rs.path), b01(hdr), env.script, reqNs, hx(userName))
 		impl := fmt.Sprintf("gate=%s ## status=%d trace=%s respns=%s", gate, status, dashJoin(env.trace), dashJoin(respNs))
 		return Case{Ops: []string{op}, Impl: []string{impl}, Tags: []string{rs.path, "script=" + env.script, fmt.Sprintf("status=%d", status), fmt.Sprintf("repeated-namespace-param=%v", multi)}, Trivial: false}
 	}
